@@ -116,7 +116,7 @@ package leanhelix
 //@   requires lh.state != nil && lh.filter != nil && lh.filter.state == lh.state && lh.filter.futureCache != nil && lh.state.Contexts != nil
 //@   requires [A-NONNIL.the-configured-spi-objects-are-present] lh.config != nil && lh.config.KeyManager != nil && lh.config.BlockUtils != nil && lh.config.Membership != nil && lh.config.Communication != nil && lh.electionTrigger != nil
 //@   requires [A-KM-SIGN] SignsAs(lh.config.KeyManager, lh.config.Membership.MyMemberId())
-//@   requires [built-by-NewWorkerLoop.the-filter-carries-this-node-id] lh.filter.myMemberId == lh.config.Membership.MyMemberId()
+//@   requires [built-by-NewWorkerLoop.the-filter-carries-this-node-id] lh.filter.myMemberId == lh.config.Membership.MyMemberId() && lh.filter.instanceId == lh.config.InstanceId
 //@   requires lastRoundHeight <= lh.state.height && lastCommitHeight <= lh.state.height && ndelivered >= 0
 //@   inv [filter.cache] forall k int, i int :: has(lh.filter.futureCache, k) && 0 <= i && i < len(lh.filter.futureCache[k]) ==> lh.filter.futureCache[k][i].BlockHeight() == k && lh.filter.futureCache[k][i].InstanceId() == lh.filter.instanceId && lh.filter.futureCache[k][i].SenderMemberId() != lh.filter.myMemberId
 //@   modifies state.State.height, state.State.view, leanhelix.WorkerLoop.leanHelixTerm, M:S_state_HeightView:Int, ghost:lastRoundHeight, ghost:lastCommitHeight, rawmessagesfilter.RawMessageFilter.consensusMessagesHandler, rawmessagesfilter.RawMessageFilter.latestFutureBlockHeight, M:Int:Slice_Iface, ghost:ndelivered, ghost:delivered, leanhelixterm.LeanHelixTerm.termInCommittee, ghost:schedStopped, @NEWTERM
@@ -136,7 +136,7 @@ package leanhelix
 //@   requires lh.state != nil && lh.filter != nil && lh.filter.state == lh.state && lh.filter.futureCache != nil && lh.state.Contexts != nil
 //@   requires [A-NONNIL.the-configured-spi-objects-are-present] lh.config != nil && lh.config.KeyManager != nil && lh.config.BlockUtils != nil && lh.config.Membership != nil && lh.config.Communication != nil && lh.electionTrigger != nil
 //@   requires [A-KM-SIGN] SignsAs(lh.config.KeyManager, lh.config.Membership.MyMemberId())
-//@   requires [built-by-NewWorkerLoop.the-filter-carries-this-node-id] lh.filter.myMemberId == lh.config.Membership.MyMemberId()
+//@   requires [built-by-NewWorkerLoop.the-filter-carries-this-node-id] lh.filter.myMemberId == lh.config.Membership.MyMemberId() && lh.filter.instanceId == lh.config.InstanceId
 //@   requires lastRoundHeight <= lh.state.height && ndelivered >= 0
 //@   inv [filter.cache] forall k int, i int :: has(lh.filter.futureCache, k) && 0 <= i && i < len(lh.filter.futureCache[k]) ==> lh.filter.futureCache[k][i].BlockHeight() == k && lh.filter.futureCache[k][i].InstanceId() == lh.filter.instanceId && lh.filter.futureCache[k][i].SenderMemberId() != lh.filter.myMemberId
 //@   requires [O13.6.commit-for-the-current-height-only-once] block != nil && block.Height() == lh.state.height && lastCommitHeight < block.Height()
@@ -152,7 +152,7 @@ package leanhelix
 //@   requires lh.state != nil && lh.filter != nil && lh.filter.state == lh.state && lh.filter.futureCache != nil && lh.state.Contexts != nil
 //@   requires [A-NONNIL.the-configured-spi-objects-are-present] lh.config != nil && lh.config.KeyManager != nil && lh.config.BlockUtils != nil && lh.config.Membership != nil && lh.config.Communication != nil && lh.electionTrigger != nil
 //@   requires [A-KM-SIGN] SignsAs(lh.config.KeyManager, lh.config.Membership.MyMemberId())
-//@   requires [built-by-NewWorkerLoop.the-filter-carries-this-node-id] lh.filter.myMemberId == lh.config.Membership.MyMemberId()
+//@   requires [built-by-NewWorkerLoop.the-filter-carries-this-node-id] lh.filter.myMemberId == lh.config.Membership.MyMemberId() && lh.filter.instanceId == lh.config.InstanceId
 //@   requires lastRoundHeight <= lh.state.height && lastCommitHeight <= lh.state.height && ndelivered >= 0
 //@   inv [filter.cache] forall k int, i int :: has(lh.filter.futureCache, k) && 0 <= i && i < len(lh.filter.futureCache[k]) ==> lh.filter.futureCache[k][i].BlockHeight() == k && lh.filter.futureCache[k][i].InstanceId() == lh.filter.instanceId && lh.filter.futureCache[k][i].SenderMemberId() != lh.filter.myMemberId
 //@   modifies state.State.height, state.State.view, leanhelix.WorkerLoop.leanHelixTerm, M:S_state_HeightView:Int, ghost:lastRoundHeight, ghost:lastCommitHeight, rawmessagesfilter.RawMessageFilter.consensusMessagesHandler, rawmessagesfilter.RawMessageFilter.latestFutureBlockHeight, M:Int:Slice_Iface, ghost:ndelivered, ghost:delivered, leanhelixterm.LeanHelixTerm.termInCommittee, ghost:schedStopped, @NEWTERM
@@ -175,13 +175,13 @@ package leanhelix
 //@   requires ctx != nil && lh.state != nil && lh.filter != nil && lh.filter.state == lh.state && lh.filter.futureCache != nil && lh.state.Contexts != nil
 //@   requires [A-NONNIL.the-configured-spi-objects-are-present] lh.config != nil && lh.config.KeyManager != nil && lh.config.BlockUtils != nil && lh.config.Membership != nil && lh.config.Communication != nil && lh.electionTrigger != nil
 //@   requires [A-KM-SIGN] SignsAs(lh.config.KeyManager, lh.config.Membership.MyMemberId())
-//@   requires [built-by-NewWorkerLoop.the-filter-carries-this-node-id] lh.filter.myMemberId == lh.config.Membership.MyMemberId()
+//@   requires [built-by-NewWorkerLoop.the-filter-carries-this-node-id] lh.filter.myMemberId == lh.config.Membership.MyMemberId() && lh.filter.instanceId == lh.config.InstanceId
 //@   requires lastRoundHeight <= lh.state.height && lastCommitHeight <= lh.state.height && ndelivered >= 0
 //@   requires [filter.cache] forall k int, i int :: has(lh.filter.futureCache, k) && 0 <= i && i < len(lh.filter.futureCache[k]) ==> lh.filter.futureCache[k][i].BlockHeight() == k && lh.filter.futureCache[k][i].InstanceId() == lh.filter.instanceId && lh.filter.futureCache[k][i].SenderMemberId() != lh.filter.myMemberId
 //@   modifies state.State.height, state.State.view, leanhelix.WorkerLoop.leanHelixTerm, M:S_state_HeightView:Int, ghost:lastRoundHeight, ghost:lastCommitHeight, rawmessagesfilter.RawMessageFilter.consensusMessagesHandler, rawmessagesfilter.RawMessageFilter.latestFutureBlockHeight, M:Int:Slice_Iface, ghost:ndelivered, ghost:delivered, leanhelixterm.LeanHelixTerm.termInCommittee, ghost:schedStopped, @NEWTERM
 //@   loop for
 //@     invariant [frame] lh.state == old(lh.state) && lh.filter == old(lh.filter) && lh.filter.state == lh.state && lh.filter.futureCache == old(lh.filter.futureCache) && lh.state.Contexts == old(lh.state.Contexts)
-//@     invariant [filter-id-frame] lh.filter.myMemberId == old(lh.filter.myMemberId)
+//@     invariant [filter-id-frame] lh.filter.myMemberId == old(lh.filter.myMemberId) && lh.filter.instanceId == old(lh.filter.instanceId) && lh.config.InstanceId == old(lh.config.InstanceId)
 //@     invariant [config-frame] lh.config == old(lh.config) && lh.config.KeyManager == old(lh.config.KeyManager) && lh.config.BlockUtils == old(lh.config.BlockUtils) && lh.config.Membership == old(lh.config.Membership) && lh.config.Communication == old(lh.config.Communication) && lh.electionTrigger == old(lh.electionTrigger)
 //@     invariant [O17.the-installed-term-is-the-term-of-the-current-height] (lh.filter.consensusMessagesHandler != nil ==> TermHeightOf(dyn(lh.filter.consensusMessagesHandler, *leanhelixterm.LeanHelixTerm)) == lh.state.height)
 //@     invariant [O8.the-installed-term-is-wired-to-this-filter] (lh.filter.consensusMessagesHandler != nil ==> TermWired(dyn(lh.filter.consensusMessagesHandler, *leanhelixterm.LeanHelixTerm), lh.filter))
@@ -255,7 +255,7 @@ package leanhelix
 //@ pred WorkerReady(lh *WorkerLoop, ctx context.Context) = ctx != nil && lh.state != nil && lh.filter != nil && lh.filter.state == lh.state && lh.filter.futureCache != nil && lh.state.Contexts != nil
 //@   | && lh.config != nil && lh.config.KeyManager != nil && lh.config.BlockUtils != nil && lh.config.Membership != nil && lh.config.Communication != nil && lh.electionTrigger != nil
 //@   | && (forall k int :: !has(lh.filter.futureCache, k)) && lh.filter.consensusMessagesHandler == nil
-//@   | && lh.filter.myMemberId == lh.config.Membership.MyMemberId()
+//@   | && lh.filter.myMemberId == lh.config.Membership.MyMemberId() && lh.filter.instanceId == lh.config.InstanceId
 //@ func (*MainLoop).Run
 //@   props C12 C13
 //@   requires [A-NONNIL.the-consumer-configured-its-spi] m.config != nil && m.config.KeyManager != nil && m.config.BlockUtils != nil && m.config.Membership != nil && m.config.Communication != nil && ctx != nil
@@ -306,6 +306,7 @@ package leanhelix
 //@   requires f != nil && f.state != nil && t != nil && t.ConsensusMessagesFilter != nil && t.ConsensusMessagesFilter.keyManager != nil
 //@   requires [iface.own-height] message.BlockHeight() == f.state.height
 //@   requires [iface.not-from-me] message.SenderMemberId() != f.myMemberId
+//@   requires [iface.own-instance] message.InstanceId() == f.instanceId
 //@   requires [iface.the-installed-term-is-wired-to-this-filter] TermWired(t, f)
 //@   requires [iface.a-parsed-message] istype(message, *interfaces.PreprepareMessage) || istype(message, *interfaces.PrepareMessage) || istype(message, *interfaces.CommitMessage) || istype(message, *interfaces.ViewChangeMessage) || istype(message, *interfaces.NewViewMessage)
 //@   modifies *
